@@ -4,6 +4,7 @@ var verifHarnesses = map[string]any{
 	"Verif_C03_WriteImports":    Verif_C03_WriteImports,
 	"Verif_C06_Enabled":         Verif_C06_Enabled,
 	"Verif_C06_Merge":           Verif_C06_Merge,
+	"Verif_C15_ExposeVendor":    Verif_C15_ExposeVendor,
 	"Verif_C15_Expose":          Verif_C15_Expose,
 	"Verif_T2_Smoke":            Verif_T2_Smoke,
 	"Verif_C02_Faults":          Verif_C02_Faults,
